@@ -416,9 +416,11 @@ def KState.defineGuard (s : KState) (cfg : KConfig) (creator : Key) (d : StepDec
   s.raiseIfGlobMatch (d.out ++ d.vol)
   pure (stepKey label)
 
-/-- `Step.after_recycle`: new mandatory/shell flags, holding reset, FAILED back to PENDING. -/
+/-- `Step.after_recycle`: new mandatory/shell flags, holding reset; a FAILED step, or one whose shell
+flag or environment overrides (ingredients of the step hash) differ from the previous definition,
+goes back to PENDING. -/
 def KState.afterRecycle (s : KState) (sk : Key) (d : StepDecl) (n : Node) : M KState :=
-  if n.sstate = .failed then
+  if n.sstate = .failed ∨ n.shell ≠ d.shell ∨ n.overrides ≠ d.overrides then
     (s.modify sk fun n => { n with need := d.need, shell := d.shell, holding := 0 }).markStepPending sk
   else pure (s.modify sk fun n => { n with need := d.need, shell := d.shell, holding := 0 })
 
@@ -716,11 +718,16 @@ def KState.completeFailure (s : KState) (cfg : KConfig) (step : Key) (wantsDefer
   let s3 ← s2.detachCreatedIfFailed step
   pure (s3.deleteHash step)
 
+/-- The stored values of the tracked environment variables become those of the director's
+environment (the step hash just stored was computed with them). -/
+def KState.refreshEnvValues (s : KState) (cfg : KConfig) (step : Key) : KState :=
+  s.modify step fun n => { n with envs := n.envs.map fun e => (e.1, envValue cfg e.1, e.2.2) }
+
 /-- `mark_completed(new_hash, False)` -/
-def KState.completeSuccess (s : KState) (step : Key) (h : Nat) : M KState := do
+def KState.completeSuccess (s : KState) (cfg : KConfig) (step : Key) (h : Nat) : M KState := do
   let s1 ← s.setStepState step .succeeded
   let s2 ← s1.rebuildOutdatedProducts step
-  pure (s2.setHash step h)
+  pure ((s2.setHash step h).refreshEnvValues cfg step)
 
 /-- `Step.mark_completed(new_hash, wants_defer)`; returns `interrupted_defer`. -/
 def KState.markCompleted (s : KState) (cfg : KConfig) (step : Key) (newHash : Option Nat) (wantsDefer : Bool) :
@@ -730,7 +737,7 @@ def KState.markCompleted (s : KState) (cfg : KConfig) (step : Key) (newHash : Op
     let st ← s.completeFailure cfg step wantsDefer
     pure (st, wantsDefer && !s.deferGranted cfg step wantsDefer)
   | some h => do
-    let st ← s.completeSuccess step h
+    let st ← s.completeSuccess cfg step h
     pure (st, false)
 
 /-- `Step.hold` / `Step.release` -/
